@@ -157,7 +157,25 @@ func verifyGen(eng *Engine, fcs []*FuncContract, lemmas []*AxiomDef) []*FuncResu
 	for _, l := range lemmas {
 		results = append(results, eng.VerifyLemma(l))
 	}
+	for _, fd := range eng.cs.Finals {
+		if eng.curProp == "" || hasProp(fd.Props, eng.curProp) {
+			if eng.curProp == "" && len(fcs) > 0 && !finalWanted(fd, fcs) {
+				continue
+			}
+			results = append(results, eng.VerifyFinal(fd))
+		}
+	}
 	return results
+}
+
+// finalWanted: in "func" mode a final declaration is checked along with the functions of its package.
+func finalWanted(fd *FinalDef, fcs []*FuncContract) bool {
+	for _, fc := range fcs {
+		if filepath.Dir(fc.File) == filepath.Dir(fd.File) {
+			return true
+		}
+	}
+	return false
 }
 
 func verifyAll(eng *Engine, fcs []*FuncContract, lemmas []*AxiomDef, dir string, batchMs, singleMs int, stats *SolveStats, keep bool) []*FuncResult {
